@@ -103,6 +103,16 @@ def rule_ed_newline(ctx: RuleContext, p: Program, fns: list[FuncInfo], rid: str)
             ctx.check(len(encs) <= 1, rid, f'editor:{fn.qualname}: encoding agreement', f'{sorted(encs)}',
                       f'reads and writes of {fn.qualname} use different encodings {sorted(encs)}', fn.where,
                       note=f'encodings {sorted(encs)}')
+        # in-memory text buffers the printed model goes through: io.StringIO translates on write unless newline is '' / '\\n' (its default)
+        for c in walk_no_nested(fn.node):
+            if isinstance(c, ast.Call) and (dotted(c.func) or '') in ('io.StringIO', 'StringIO'):
+                nlk = next((k.value for k in c.keywords if k.arg == 'newline'), c.args[1] if len(c.args) > 1 else None)
+                ok = nlk is None or (isinstance(nlk, ast.Constant) and nlk.value in ('', '\n'))
+                n += 1
+                ctx.check(ok, rid, f'editor:{fn.qualname}', f'buffer: {norm(c)}',
+                          f'`{norm(c)}` is a text buffer with newline={norm(nlk) if nlk is not None else ""}: universal-newline translation turns every '
+                          f'"\\r\\n" of the printed model into "\\n", so the text compared with (and written over) the file differs from what was read even '
+                          f'when nothing was edited', f'{fn.module.relpath}:{c.lineno}', note='no translation (newline absent, \'\' or \'\\n\')')
     if n < 4:
         raise AnalysisError(f'ED-NEWLINE: only {n} I/O sites found in editor.py (4 confirmed by hand)')
 
@@ -387,7 +397,94 @@ def run(ctx: RuleContext, p: Program) -> None:
     ctx.try_rule(rule_ed_after_yield, p, fns, 'ED-AFTER-YIELD')
     ctx.try_rule(rule_ed_once, p, 'ED-ONCE')
     ctx.try_rule(rule_ed_sets, p, 'ED-SETS')
+    ctx.try_rule(rule_ed_fresh, p, fns, 'ED-FRESH')
     ctx.not_decided += ['glob matching semantics', 'filesystem races', 'what the parser/printer produce (C01)']
     ctx.assumptions += ['Python io newline semantics: newline=None translates on read and to os.linesep on write; '
                         'any other value disables translation on read; \'\' and \'\\n\' write verbatim',
                         'Path.read_text has no newline parameter before Python 3.13']
+
+
+# ====================================================================== ED-FRESH (added after seeded round 3)
+def rule_ed_fresh(ctx: RuleContext, p: Program, fns: list[FuncInfo], rid: str) -> None:
+    ctx.rule(rid, 'the models an edit session hands to its caller are created in that session: every object that reaches the yield (directly, '
+                  'as an entry of the yielded dict, or through a helper method) is the result of a parse / constructor / deep copy made in '
+                  'this call, never an object read back from the Editor instance (a model kept from an earlier session carries that '
+                  'session\'s edits, including those of a body that raised, and would be written out as if they were made now)')
+    by_name = {f.name: f for f in fns if f.cls is not None}
+    n = 0
+
+    def self_state(e: ast.AST, selfname: str) -> Optional[str]:
+        """expression reads mutable state of the instance (anything under self other than the parser / a method call)"""
+        for x in ast.walk(e):
+            if isinstance(x, ast.Attribute) and isinstance(x.value, ast.Name) and x.value.id == selfname and x.attr not in ('_parser',) \
+                    and x.attr not in by_name:
+                return norm(x)
+        return None
+
+    def sources(fn: FuncInfo, e: ast.AST, depth: int, seen: set[str]) -> list[tuple[str, str]]:
+        """[(kind, text)] kind in fresh | state | unknown"""
+        selfname = fn.params[0] if fn.params else 'self'
+        if isinstance(e, ast.Name):
+            if e.id in seen:
+                return []
+            seen = seen | {e.id}
+            out: list[tuple[str, str]] = []
+            defs = [a for a in walk_no_nested(fn.node) if isinstance(a, ast.Assign) and any(
+                (isinstance(t, ast.Name) and t.id == e.id) or (isinstance(t, ast.Tuple) and any(isinstance(x, ast.Name) and x.id == e.id for x in t.elts))
+                for t in a.targets)]
+            defs += [a for a in walk_no_nested(fn.node) if isinstance(a, ast.NamedExpr) and a.target.id == e.id]      # type: ignore[list-item]
+            stores = [a for a in walk_no_nested(fn.node) if isinstance(a, ast.Assign) and any(
+                isinstance(t, ast.Subscript) and isinstance(t.value, ast.Name) and t.value.id == e.id for t in a.targets)]
+            for a in defs + stores:
+                out += sources(fn, a.value, depth, seen)
+            if e.id in fn.params:
+                out.append(('param', e.id))
+            return out
+        if isinstance(e, ast.Tuple):
+            return [s for x in e.elts for s in sources(fn, x, depth, seen)]
+        if isinstance(e, ast.Subscript):
+            st = self_state(e.value, selfname)
+            return [('state', st)] if st else sources(fn, e.value, depth, seen)
+        if isinstance(e, ast.IfExp):
+            return sources(fn, e.body, depth, seen) + sources(fn, e.orelse, depth, seen)
+        if isinstance(e, ast.Call):
+            nm = dotted(e.func) or norm(e.func)
+            if nm in ('copy.deepcopy',):
+                return [('fresh', norm(e)[:50])]
+            if isinstance(e.func, ast.Attribute) and isinstance(e.func.value, ast.Name) and e.func.value.id == selfname and e.func.attr in by_name:
+                if depth >= 2:
+                    return [('unknown', norm(e)[:50])]
+                h = by_name[e.func.attr]
+                out = []
+                for r in walk_no_nested(h.node):
+                    if isinstance(r, ast.Return) and r.value is not None:
+                        out += sources(h, r.value, depth + 1, set())
+                return [s for s in out if s[0] != 'param']
+            st = self_state(e.func, selfname)
+            if st:
+                return [('state', f'{norm(e)[:50]}')]
+            return [('fresh', norm(e)[:50])]
+        if isinstance(e, ast.Attribute):
+            st = self_state(e, selfname)
+            return [('state', st)] if st else [('unknown', norm(e))]
+        if isinstance(e, (ast.Constant, ast.Dict, ast.List, ast.Set, ast.DictComp, ast.ListComp)):
+            return [('fresh', norm(e)[:40])]
+        return [('unknown', norm(e)[:50])]
+
+    for fn in fns:
+        if fn.cls is None:
+            continue
+        for y in walk_no_nested(fn.node):
+            if not isinstance(y, ast.Yield) or y.value is None:
+                continue
+            n += 1
+            src = sources(fn, y.value, 0, set())
+            state = [t for k, t in src if k == 'state']
+            site = f'editor:{fn.qualname}'
+            ctx.check(not state, rid, site, f'yield {norm(y.value)}',
+                      f'`yield {norm(y.value)}` can hand out an object read from the Editor instance ({state[0] if state else ""}) instead of one '
+                      f'parsed in this session: edits made on it by an earlier session -- also one whose body raised, or one whose result was '
+                      f'reverted on disk -- are printed and written by this one', f'{fn.module.relpath}:{y.lineno}',
+                      note=f'sources: {sorted({t for k, t in src if k == "fresh"})[:3]}')
+    if n < 2:
+        raise AnalysisError(f'ED-FRESH: only {n} yielding sessions found in editor.py')
